@@ -157,7 +157,7 @@ def riccati_oracle(prof, z0, zt, zlev, kx, ky, rtol=1e-11):
     return Z * Hq, Hq
 
 
-def _select(prof, zc, nx, ny, X, Y, modes):
+def _select(prof, zc, nx, ny, X, Y, modes, upto=None):
     """Retained, non-constant, unambiguous (non-edge) bins that the coarse grid resolves."""
     mx = np.fft.fftfreq(nx, 1.0 / nx)
     my = np.fft.fftfreq(ny, 1.0 / ny)
@@ -177,7 +177,10 @@ def _select(prof, zc, nx, ny, X, Y, modes):
             T, Kz = _T(prof, zc[node], KX, KY)
             res = np.maximum(res, np.abs(T) * dz[i] ** 2 / Kz)
         T, Kz = _T(prof, zc[i], KX, KY)
-        grow += np.sqrt(-T / Kz + 0j).real * dz[i]
+        if upto is None or i < upto:
+            # rounding in the two shooting solutions is amplified by their growth BELOW the output level; with `upto`
+            # (deep columns, low output levels) the growth up to the highest requested node counts, not up to the top
+            grow += np.sqrt(-T / Kz + 0j).real * dz[i]
     sel = ok & (res <= 1.0) & (grow <= 18.0)
     return sel, KX[sel], KY[sel], int(ok.sum())
 
@@ -211,7 +214,7 @@ def _judge(errs, rels, nsel, nret, tag, extra=""):
 
 # ------------------------------------------------------------------ kinds
 @S.kind("refine")
-def refine(wind, K, aniso, grid, z0, zt, n, factors, nx, ny, X, Y, modes, level_fracs, seed):
+def refine(wind, K, aniso, grid, z0, zt, n, factors, nx, ny, X, Y, modes, level_fracs, seed, deep=False):
     """Formula profiles on self-built grids; coarse n layers, refined n*f for f in factors."""
     prof = make_profiles(wind, K, aniso)
     rng = np.random.default_rng(seed)
@@ -219,7 +222,10 @@ def refine(wind, K, aniso, grid, z0, zt, n, factors, nx, ny, X, Y, modes, level_
     zc = make_grid(grid, z0, zt, n)
     if min(np.min(a) for a in prof(zc)[2:]) <= 0 or np.min(np.hypot(*prof(zc)[:2])) <= 0:
         raise AssertionError("generator produced a non-positive profile")
-    sel, kx, ky, nret = _select(prof, zc, nx, ny, X, Y, modes)
+    upto = None
+    if deep:
+        upto = max(int(round(f * n)) for f in np.atleast_1d(level_fracs))
+    sel, kx, ky, nret = _select(prof, zc, nx, ny, X, Y, modes, upto=upto)
     nsel = int(sel.sum())
     if nsel == 0:
         return Verdict(True, "no resolved component", nontrivial=False)
@@ -341,6 +347,13 @@ def generate(tier, rng):
                         nx=ny, ny=nx, X=0.5 * X, Y=0.6 * X, modes=[512, 512],
                         level_fracs=LEVEL_ORDERS[(c + 3) % len(LEVEL_ORDERS)],
                         seed=rng.randrange(10 ** 6))
+    # a deep column over a small, finely gridded box with output near the surface: components that have decayed to
+    # nothing at the top node are of order one where the output is taken
+    for k in range(2):
+        yield "refine", dict(
+            wind=WINDS[0], K=KS[0], aniso=list(ANISO[k]), grid="uniform", z0=0.5, zt=20.5, n=320, factors=[4],
+            nx=8, ny=6, X=12.0, Y=9.0, modes=[8, 6], level_fracs=([0.0, 0.025, 0.1], [0.05, 0.0125, 0.0])[k],
+            seed=rng.randrange(10 ** 6), deep=True)
     # closures of the real vertical_profiles
     clos = [("MOST", -50.0), ("MOST", 80.0), ("MOSTM", -30.0), ("MOSTM", 1e9),
             ("CONSTANT", 1e9), ("MOST", 1e9)]
